@@ -49,6 +49,8 @@ def check_violation(ctx, name, lines, v):
     if file != name:
         ctx.fail("a violation names a file that was not linted", desc, None, None)
         return
+    if row == 0 and col == 0 and er is None:
+        return      # a file-level violation (testing/file-missing-test-suffix): it names the file and carries no position
     if not (1 <= row <= len(lines)):
         ctx.fail("violation row outside the file", desc, None, {"lines": len(lines)})
         return
